@@ -1,4 +1,5 @@
 //! Harness: drives the real lsm-tree and records traces for the TLA+ trace specs.
+mod corrupt;
 mod exec;
 mod filter;
 mod model;
@@ -20,7 +21,7 @@ pub fn arg(args: &[String], name: &str) -> Option<String> {
         .and_then(|i| args.get(i + 1).cloned())
 }
 
-fn install_hooks() {
+pub fn install_hooks() {
     let lc = LAST_CHOICE.clone();
     lsm_tree::verif::set_event_handler(Some(Arc::new(move |name, args| {
         if name == "choice" {
@@ -29,7 +30,7 @@ fn install_hooks() {
     })));
 }
 
-fn blob_from(v: &Value) -> Option<BlobCfg> {
+pub fn blob_from(v: &Value) -> Option<BlobCfg> {
     if v.is_null() {
         return None;
     }
@@ -190,6 +191,7 @@ fn main() {
     let code = match args.get(1).map(String::as_str) {
         Some("replay") => replay(&args[2..]),
         Some("tablecase") => tablecase::run(&args[2..]),
+        Some("corrupt") => corrupt::run(&args[2..]),
         _ => {
             eprintln!("usage: harness replay --in F --out F [...]");
             2
